@@ -15,16 +15,20 @@
 (*   second representative = a value structurally Equal (Eq of DeriveSem)  *)
 (*   to the first but not the same (preferring a twin such as +0 / -0,     *)
 (*   else another allocation); the first again if the pool has none.       *)
+(*   For leaf-like types the pool is XPool(T) (ListPool: Pool(T) plus the  *)
+(*   leaf tokens it lacks, exported as "extra"); those take b' / c' when   *)
+(*   these would only repeat b / c.                                        *)
 (* This only CHOOSES inputs; ListTrace judges every observation from the   *)
 (* pool indices actually used, whatever the slots are.                     *)
 (***************************************************************************)
-EXTENDS DeriveSem, Json, IOUtils
+EXTENDS ListPool, Json, IOUtils
 
 Cases == ndJsonDeserialize(IOEnv.VERIF_CASES)
 
 SlotsOf(cs) ==
   LET T == cs.t
-      P == cs.pool
+      P == cs.pool \o Extras(cs.t)
+      NP == Len(cs.pool)
       N == DOMAIN P
       E(i) == {j \in N : Eq(NoEnv, T, P[i].v, P[j].v)}
       First(S) == CHOOSE i \in S : \A j \in S : i <= j
@@ -52,10 +56,19 @@ SlotsOf(cs) ==
       c1 == IF FZ # {} THEN P[First(FZ)].of
             ELSE IF 2 \in rest3 /\ Rep2In(2, E2) # 2 THEN 2 ELSE IF rest3 # {} THEN First(rest3) ELSE b1
       c2 == IF FZ # {} THEN First(FZ) ELSE Rep2In(c1, E(c1))
-  IN <<a1, a2, b1, Rep2In(b1, Eb), c1, c2>>
+      br == Rep2In(b1, Eb)
+      \* leaf-like types: the extra tokens of XPool(T) (far from the base value)
+      \* take the slots that would only repeat a value: b' and, if c has no second
+      \* representative, c'
+      xs == {i \in N : i > NP /\ i \notin {c1, c2}}
+      b2 == IF br = b1 /\ xs # {} THEN First(xs) ELSE br
+      xs2 == xs \ {b2}
+      c3 == IF c2 = c1 /\ xs2 # {} THEN First(xs2) ELSE c2
+  IN <<a1, a2, b1, b2, c1, c3>>
 
 Out == [i \in DOMAIN Cases |->
           [id |-> Cases[i].id,
+           extra |-> IF Cases[i].wf THEN Extras(Cases[i].t) ELSE <<>>,
            slots |-> IF Cases[i].wf /\ Len(Cases[i].pool) >= 3 THEN SlotsOf(Cases[i]) ELSE <<>>]]
 
 ASSUME ndJsonSerialize(IOEnv.VERIF_OUT, Out)
